@@ -10,6 +10,7 @@ import Driver.Breaker
 import Driver.Queue
 import Driver.Grammar
 import Driver.Store
+import Driver.Handle
 import Driver.Craft
 import Driver.ReadGate
 import Driver.Subscription
@@ -24,6 +25,7 @@ structure DState where
   breaker : Option SierraModel.Breaker.Sys := none
   c12 : Driver.Queue.St := {}
   store : Driver.Store.St := {}
+  c22 : Driver.Handle.St := {}
   craft : Driver.Craft.St := {}
   c07 : Driver.ReadGate.St := {}
   c09 : Option SierraModel.Subscription.Sys := none
@@ -40,6 +42,7 @@ def step (st : DState) (toks : List String) : DState × String :=
   | "c09" :: rest => let (c, r) := Subscription.c09 st.c09 rest; ({ st with c09 := c }, r)
   | "c07" :: rest => let (g, r) := ReadGate.c07 st.c07 rest; ({ st with c07 := g }, r)
   | "rd" :: rest => let (c, r) := Craft.step st.craft rest; ({ st with craft := c }, r)
+  | "c22" :: rest => let (h, r) := Handle.c22 st.c22 rest; ({ st with c22 := h }, r)
   | "c26" :: rest => let (b, r) := Breaker.c26 st.breaker rest; ({ st with breaker := b }, r)
   | "c12" :: rest => let (q, r) := Queue.c12 st.c12 rest; ({ st with c12 := q }, r)
   | "c21" :: rest => (st, Grammar.c21 rest)
